@@ -84,15 +84,16 @@ def obligations_for(cmd, j, st, inp, s, K):
     # ---- invariant preservation (well-formedness is inductive)
     nz = [z3.Implies(P['present'][i], P['cas'][i] != 0) for i in range(K)]
     obs.append(('invariant', 'stored-cas-nonzero', z3.And(nz)))
-    inv = [P['cas_id'] != 0]
+    # the counter is monotone, moves by at most 2 per command unless a client-derived token (< 2^63) pulls it up, and so stays
+    # below 2^63 + 2n + 1 after n commands: no wrap-around within 2^61 commands (stated bound)
+    inv = [P['cas_id'] != 0, z3.UGE(P['cas_id'], st.cas_id),
+           z3.Or(z3.ULE(P['cas_id'] - st.cas_id, 2), z3.ULE(P['cas_id'], BV((1 << 63) + 1)))]
     for i in range(K):
         inv.append(z3.Implies(P['present'][i], z3.ULE(P['ts'][i], st.now)))
         inv.append(z3.Implies(P['present'][i], z3.ULT(P['cas'][i], P['cas_id'])))
-    # client-chosen CAS values >= 2^62 (stored for an absent key as cas + 1) push the counter next to wrap-around:
-    # such histories leave the well-formed region and are outside the inductive claim (stated in the evidence).
     # A failure of this obligation is an *inductive gap* (the one-step argument no longer covers all histories),
     # not by itself a violation: the property-level alarm comes from the bounded history check.
-    obs.append(('invariant', 'GAP:counter-ahead-and-timestamps-sane', z3.Implies(z3.ULT(inp.cas, BV(1 << 62)), z3.And(inv))))
+    obs.append(('invariant', 'GAP:counter-monotone-and-ahead-of-every-token', z3.And(inv)))
     return obs
 
 
@@ -110,7 +111,7 @@ def run_store_checks(ck, cmds, aspects, K=2, regions_fn=None, tier='quick'):
     ck.assumptions += ['state invariant assumed of the pre-state and checked of every post-state: stored CAS != 0 and < counter, '
                        'timestamps <= clock, clock < 2^40, counter < 2^62',
                        'the clock does not tick inside one command (ticks between commands are arbitrary)',
-                       'inductive coverage of histories excludes states reached through client-chosen CAS values >= 2^62 (counter near wrap-around)',
+                       'the counter is monotone and grows by at most 2 per command above 2^63 (checked inductive): claim for fewer than 2^61 commands',
                        'DashMap modelled as a finite map with per-call atomicity; byte strings as uninterpreted terms']
     replay_budget = 30 if tier == 'quick' else 10 ** 6
     nrep = 0
